@@ -47,12 +47,25 @@ func VerifC20(args []string) {
 			numVars = append(numVars, GenExprResult{Expr: name, Res: v.val})
 		}
 	}
-	opts := []GenExprOption{func(c *GenExprConfig) {
-		c.NumVariables, c.BoolVariables = numVars, boolVars
-		if has('t') {
-			c.DneVariables = dneVars
+	// the variables go through the public GenVariables option, one call per variable so that
+	// their order does not depend on map iteration; the integers are passed as different Go
+	// integer types (the option normalises them to int64)
+	var opts []GenExprOption
+	for i, nv := range numVars {
+		var raw interface{} = nv.Res
+		if i == 0 {
+			raw = int(nv.Res.(int64))
 		}
-	}}
+		opts = append(opts, GenVariables(map[string]interface{}{nv.Expr: raw}))
+	}
+	for _, bv := range boolVars {
+		opts = append(opts, GenVariables(map[string]interface{}{bv.Expr: bv.Res}))
+	}
+	if has('t') {
+		for _, dv := range dneVars {
+			opts = append(opts, GenVariables(map[string]interface{}{dv.Expr: DNE}))
+		}
+	}
 	if typ == "num" {
 		opts = append(opts, GenType(GenNumber))
 	} else {
